@@ -22,6 +22,7 @@ CHECKS = {
  "C13": ("exploration", "every frame of every explored run (message-flow, teardown, metadata families) is fed, at emission and at delivery, to a protocol automaton written from tunnel.proto (appendix A)", "6 C13, appendix A"),
  "C16": ("exploration", "seeded search over shape cases: raw client vs real server and raw server vs real client with 0-4 messages on the non-streaming side, arbitrary chunking, messages after the half-close/close, both network roles, negotiated and legacy; and applications that send twice on a non-streaming side (wire monitor: one envelope)", "6 C16"),
  "C14": ("exploration", "every run ends with a drain to final quiescence and a full shutdown; stream-table sizes are probed through the verif accessors and every goroutine the library started is accounted for by spawn site", "6 C14"),
+ "C17": ("exploration", "seeded search over tunnel-opening metadata / peer / context values x {forward, reverse with several tunnels behind one handler, nested} x concurrent RPCs whose handlers and callers call TunnelMetadataFromIncomingContext / TunnelMetadataFromOutgoingContext / TunnelChannelFromContext / WithTunnelChannel, mutate the returned metadata in place and read again; compared with the ground truth of which tunnel carried the RPC. Schedules matter only through concurrency of mutation and routing; the race oracle for the same family is part of C15", "6 C17"),
  "C18": ("exploration", "seeded generation of grpc-timeout header values from 16 classes (all units; 1-8 digits, leading zeros, more than eight digits, around and beyond int64 overflow, signs, spaces, empty / missing parts, unknown units, non-decimal digits, repeated headers) on tunnels with and without their own deadline; each handler's ctx.Deadline() is compared with an independent implementation of the gRPC wire specification relative to a control RPC, and for durations up to 40 days the virtual clock is run to the expiry, which must fall exactly there. The quantifier is over inputs; the simulator contributes the virtual clock, not a schedule search", "6 C18"),
 }
 
